@@ -109,6 +109,62 @@ static void logon_gap()
 	if (st == States::st_session_terminated || st == States::st_logoff_sent || f.ss->is_shutdown())
 		REPORT("{\"scenario\":\"logon_gap\",\"history\":\"Logon reply with MsgSeqNum 4, expected 1\",\"state\":%d,\"session_shut_down\":%d}", (int)st, (int)f.ss->is_shutdown());
 }
+// C20: a whole recovery: gap, then the counterparty replays the missing application messages (PossDup) and continues normally
+static void recovery()
+{
+	{
+		Fx f; f.logon(1); f.order(2); f.order(5);	// 3 and 4 lost; 5 withheld, ResendRequest(3, 0) sent
+		f.order(3, true); f.order(4, true); f.order(5, true);	// conformant replay
+		f.order(6);	// and normal traffic
+		const States::SessionStates st = f.ss->getState();
+		if (st == States::st_session_terminated || st == States::st_logoff_sent || f.ss->is_shutdown() || f.ss->expected() != 7 || f.ss->delivered < 5)
+			REPORT("{\"scenario\":\"recovery by replay\",\"history\":\"Logon 1, order 2, order 5 (gap), replay 3 4 5 with PossDup, order 6\",\"state\":%d,\"shut_down\":%d,\"expected_inbound\":%u,\"want_expected\":7,\"delivered\":%u}",
+				(int)st, (int)f.ss->is_shutdown(), f.ss->expected(), f.ss->delivered);
+	}
+	{
+		Fx f; f.logon(1); f.order(2); f.order(3);
+		f.order(3, true);	// a duplicate of 3, flagged PossDup (conformant: e.g. the answer to a ResendRequest the counterparty saw twice)
+		f.order(4);
+		const States::SessionStates st = f.ss->getState();
+		if (st == States::st_session_terminated || st == States::st_logoff_sent || f.ss->is_shutdown() || f.ss->expected() != 5)
+			REPORT("{\"scenario\":\"duplicate with PossDup then normal traffic\",\"history\":\"Logon 1, order 2, order 3, order 3 with PossDup, order 4\",\"state\":%d,\"shut_down\":%d,\"expected_inbound\":%u,\"want_expected\":5}",
+				(int)st, (int)f.ss->is_shutdown(), f.ss->expected());
+	}
+	{
+		Fx f; f.logon(1); f.order(2); f.order(5);
+		SequenceReset m; f.hdr(m.Header(), 3, true); m << new NewSeqNo(6) << new GapFillFlag(true);	// conformant gap fill 3..5
+		f8String s; m.encode(s); f.ss->update_received(); f.ss->process(s);
+		f.order(6);
+		const States::SessionStates st = f.ss->getState();
+		if (st == States::st_session_terminated || st == States::st_logoff_sent || f.ss->is_shutdown() || f.ss->expected() != 7)
+			REPORT("{\"scenario\":\"recovery by gap fill\",\"history\":\"Logon 1, order 2, order 5 (gap), GapFill 3->6, order 6\",\"state\":%d,\"shut_down\":%d,\"expected_inbound\":%u,\"want_expected\":7}",
+				(int)st, (int)f.ss->is_shutdown(), f.ss->expected());
+	}
+}
+// C19: a lower number without PossDupFlag ends the session with a Logout and no delivery
+static void too_low()
+{
+	Fx f; f.logon(1); f.order(2); f.order(3); f.conn->_output.clear();
+	const unsigned d0 = f.ss->delivered;
+	f.order(2);
+	const bool ended = f.ss->is_shutdown() || f.ss->getState() == States::st_session_terminated || f.ss->getState() == States::st_logoff_sent;
+	if (f.ss->delivered != d0 || !ended || !f.sent("35=5"))
+		REPORT("{\"scenario\":\"too low\",\"history\":\"Logon 1, order 2, order 3, order 2 without PossDup\",\"delivered_again\":%d,\"session_ended\":%d,\"logout_sent\":%d,\"state\":%d}",
+			(int)(f.ss->delivered != d0), (int)ended, (int)f.sent("35=5"), (int)f.ss->getState());
+}
+// C19: the number handed to the gate is the MsgSeqNum field, also when an earlier header value contains the text "34="
+static void seqnum_text()
+{
+	Fx f; f.logon(1); f.order(2);
+	const unsigned d0 = f.ss->delivered;
+	NewOrderSingle m; f.hdr(m.Header(), 3); *m.Header() << new OnBehalfOfCompID("X34=9");
+	m << new TransactTime << new ClOrdID("4") << new HandlInst('1') << new OrdType('2') << new Side('1') << new Symbol("OC") << new OrderQty(50) << new Price(400.5);
+	f8String s; m.encode(s); f.conn->_output.clear(); f.ss->update_received(); f.ss->process(s);
+	const bool before = s.find("34=9") < s.find("\00134=3");
+	if (f.ss->delivered != d0 + 1 || f.sent("35=2"))
+		REPORT("{\"scenario\":\"seqnum text\",\"history\":\"Logon 1, order 2, order 3 whose OnBehalfOfCompID is X34=9\",\"value_precedes_field\":%d,\"delivered\":%d,\"resend_request_sent\":%d,\"state\":%d}",
+			(int)before, (int)(f.ss->delivered == d0 + 1), (int)f.sent("35=2"), (int)f.ss->getState());
+}
 // C18: answer to a ResendRequest: dump what goes on the wire (MsgType, MsgSeqNum, NewSeqNo, PossDup) so that the caller can compare with the specification
 static void dump_wire(Fx& f, const char *scenario)
 {
@@ -306,6 +362,9 @@ int main(int argc, char **argv)
 	if (which == "second_gap" || which == "all") second_gap();
 	if (which == "logon_gap" || which == "all") logon_gap();
 	if (which == "tick" || which == "all") heartbeat_ticks();
+	if (which == "recovery") recovery();
+	if (which == "too_low") too_low();
+	if (which == "seqnum_text") seqnum_text();
 	if (which.rfind("resend", 0) == 0) resend_scenarios(which);
 	if (which.rfind("send", 0) == 0) send_scenarios(which);
 	printf("{\"search_done\":true,\"class\":\"%s\",\"mismatches\":%d}\n", which.c_str(), bad);
